@@ -96,9 +96,10 @@ func init() {
 			defer func() { a.runtime.scope = outer }()
 
 			a.runtime.blocks = t.processedBlocks
+			// render the root ancestor, like Execute and include do
 			root := t.Root
-			if t.extends != nil {
-				root = t.extends.Root
+			for e := t.extends; e != nil; e = e.extends {
+				root = e.Root
 			}
 
 			if a.NumOfArguments() > 1 {
@@ -127,9 +128,10 @@ func init() {
 			a.runtime.Writer = ioutil.Discard
 
 			a.runtime.blocks = t.processedBlocks
+			// render the root ancestor, like Execute and include do
 			root := t.Root
-			if t.extends != nil {
-				root = t.extends.Root
+			for e := t.extends; e != nil; e = e.extends {
+				root = e.Root
 			}
 
 			if a.NumOfArguments() > 1 {
